@@ -671,7 +671,7 @@ impl Property for C03 {
          budget 1/2/3/10/30, both debug switches, 0-2 defines valid/invalid, 1-3 output groups over every format name incl. invalid ones, -o/-p). \
          Oracle on driver::drive in-process: no panic; Ok => no error-kind message, Err => at least one error-kind message and no file written. \
          For a quarter of the cases EVERY single permanent I/O fault is then enumerated: each input file that the fault-free run requested made \
-         unreadable, each output path it wrote made unwritable (writes of earlier groups are then allowed). Non-trivial = the text differs from \
+         unreadable, each output path it wrote made unwritable (writes of earlier groups are then allowed). (v4) a quarter of the generated command lines name the input file LAST; a successful run must have written exactly one file per `--` group that does not say -p (`success-but-requested-output-missing`). Non-trivial = the text differs from \
          its seed (>=1 edit applied) and the run either succeeds or fails after parsing (phase label != parse/cli/io); distinct by hash of files+args."
             .to_string()
     }
